@@ -185,7 +185,11 @@ func vCompose(depth int, name string) string {
 	if depth == 0 {
 		return atoms[nd.Choice(name+".atom", len(atoms))]
 	}
-	switch nd.Choice(name+".form", 10) {
+	switch nd.Choice(name+".form", 12) {
+	case 10: // arithmetic belongs to update expressions: not a condition, nor an operand of one
+		return vCompose(depth-1, name+".l") + " + " + vCompose(depth-1, name+".r")
+	case 11:
+		return vCompose(depth-1, name+".l") + " - " + vCompose(depth-1, name+".r")
 	case 0:
 		return vCompose(0, name+".0")
 	case 1:
